@@ -21,7 +21,7 @@ import time
 
 ROOT = os.path.dirname(os.path.dirname(os.path.abspath(__file__)))
 sys.path.insert(0, os.path.join(ROOT, 'lib'))
-from props import PROPS  # noqa: E402
+from propsload import PROPS  # noqa: E402
 
 GOENV = dict(GOFLAGS='-mod=mod', GOPROXY='off', GOSUMDB='off', GOTOOLCHAIN='local',
              CARGO_NET_OFFLINE='true', PIP_NO_INDEX='1')
@@ -136,12 +136,26 @@ def coq_props(pid):
     return True, theorems, assum, out2
 
 
+REPO = os.path.abspath(os.environ.get('VERIF_REPO') or '/repo')
+# a scratch copy of the repository (mutation testing) gets its own go.mod and binaries
+BIN_SUFFIX = '' if REPO == '/repo' else '-' + hashlib.md5(REPO.encode()).hexdigest()[:8]
+
+
 def build_harness(name):
     h = os.path.join(ROOT, 'harness')
-    with Lock('harness'):
-        sh(['cp', '/repo/go.sum', os.path.join(h, 'go.sum')])
+    with Lock('harness' + BIN_SUFFIX):
         os.makedirs(os.path.join(h, 'bin'), exist_ok=True)
-        rc, out = sh(['go', 'build', '-tags', 'verif', '-o', 'bin/' + name, './cmd/' + name], cwd=h, timeout=3000)
+        cmd = ['go', 'build', '-tags', 'verif']
+        if BIN_SUFFIX:
+            md = os.path.join(ROOT, 'work', 'mod' + BIN_SUFFIX)
+            os.makedirs(md, exist_ok=True)
+            mod = open(os.path.join(h, 'go.mod')).read().replace('=> /repo', '=> ' + REPO)
+            open(os.path.join(md, 'go.mod'), 'w').write(mod)
+            sh(['cp', os.path.join(REPO, 'go.sum'), os.path.join(md, 'go.sum')])
+            cmd += ['-modfile', os.path.join(md, 'go.mod')]
+        else:
+            sh(['cp', '/repo/go.sum', os.path.join(h, 'go.sum')])
+        rc, out = sh(cmd + ['-o', 'bin/' + name + BIN_SUFFIX, './cmd/' + name], cwd=h, timeout=3000)
     return rc, out
 
 
@@ -161,7 +175,7 @@ def run_stream(pid, stream, tier, seed, scale, workdir, replay=None, tag=''):
     """harness -> trace -> driver.  Returns dict(cases, findings, stats, trace path)."""
     hname, dname = stream['harness'], stream['driver']
     trace = os.path.join(workdir, 'trace-%s%s.txt' % (hname, tag))
-    cmd = [os.path.join(ROOT, 'harness', 'bin', hname), '-seed', str(seed), '-tier', tier, '-out', trace,
+    cmd = [os.path.join(ROOT, 'harness', 'bin', hname + BIN_SUFFIX), '-seed', str(seed), '-tier', tier, '-out', trace,
            '-scale', str(scale)] + stream.get('args', [])
     if replay:
         cmd += ['-replay', replay]
@@ -327,7 +341,7 @@ def main():
     except ValueError:
         seed = 1
     t_start = time.time()
-    workdir = os.path.join(ROOT, 'work', pid + ('-replay' if a.replay else ''))
+    workdir = os.path.join(ROOT, 'work', pid + BIN_SUFFIX + ('-replay' if a.replay else ''))
     os.makedirs(workdir, exist_ok=True)
     os.makedirs(os.path.join(ROOT, 'replays'), exist_ok=True)
     os.makedirs(os.path.join(ROOT, 'evidence'), exist_ok=True)
@@ -525,7 +539,7 @@ def main():
         assumptions=cfg.get('assumptions', []),
         wall_s=round(time.time() - t_start, 1), violations=len(violations),
     )
-    if not a.no_evidence:
+    if not a.no_evidence and not BIN_SUFFIX:
         json.dump(ev, open(os.path.join(ROOT, 'evidence', pid + '.json'), 'w'), indent=1)
 
     for kid, (k, n) in sorted(known_hit.items()):
